@@ -28,6 +28,13 @@ claim("C20", "type-level who-may-hold rule + forward alias closure of formatted 
       "Decides that no synchronous logger/appender/layout type can hold log bytes in a user-space buffer and that formatted bytes flow only into (*os.File).Write / the console io.Writer on the caller's goroutine (no go/send/store/capture). What the kernel does after write(2) is not decided.",
       NOTE_COMMON, "DESIGN.md §4 C20")
 
+claim("C18", "finite-domain value-set analysis (all 256 bytes; order types of len against compared constants) + dominating-guard rule on the registry store",
+      "Decides exactly, for every byte value and every length/segment-count order type, that the validator accepts [a-z0-9_], 3..36, Split(TrimPrefix(tag,\"_\"),\"_\") with 1..4 non-empty segments, that the byte loop covers every index, and that the registry has one writer guarded by !init, the validator's true edge and a lookup miss. A segment test written outside the recognised family is reported as undecided rather than guessed.",
+      NOTE_COMMON, "DESIGN.md §4 C18")
+claim("C09", "finite-domain abstract interpretation of the escaper (256 byte values x decode-test outcomes) against the RFC 8259 escape table",
+      "For every byte value the ASCII handler's output fragment is computed from the SSA and checked to be a valid JSON string fragment decoding to that byte; the main loop's three continuations are enumerated path-sensitively (handled / invalid byte / valid rune) and checked for the written slice and the index advance. Given the utf8.DecodeRuneInString contract this decides the property's never-raw-control-byte and one-U+FFFD-per-invalid-byte clauses for all byte strings.",
+      NOTE_COMMON, "DESIGN.md §4 C09")
+
 PENDING_REASON = "check not built yet in this commit (static rule planned in DESIGN.md section 4); no claim is made until the rule exists and has been validated both ways"
 
 def main():
